@@ -45,6 +45,13 @@ def keyword_package(kws: list[str]) -> dict:
     f["kuse.py"] = "from kwpk.kcls import " + ", ".join(names) + "\n\n" + "\n".join(
         f"def use{k}(a: {n}) -> list[{n}]:\n    ...\n\n\nclass Sub{k}({n}):\n    pass\n" for k, n in enumerate(names))
     # names whose camelCase form would be empty or start with a digit
+    # type forms around callables and null: a callable type has no nullable form of its own
+    f["ktypes.py"] = ("from __future__ import annotations\nfrom typing import Callable, Literal, Optional, Union\n\n\n"
+                      "def ty0(a: Optional[Callable[[int], None]] = None, b: Callable[[int], tuple[int, str]] | None = None, c: Optional[Callable[[], int]] = None,\n"
+                      "        d: Union[Callable[[int], None], None, int] = None, e: Optional[Callable[..., None]] = None) -> Optional[Callable[[str], None]]:\n    ...\n\n\n"
+                      "class TyHolder:\n    hook: Optional[Callable[[str, int], None]] = None\n    pair: Optional[tuple[int, str]] = None\n    lit: Optional[Literal[\"a\", 1]] = None\n\n"
+                      "    def __init__(self, cb: Optional[Callable[[int], None]] = None):\n        self.cb: Optional[Callable[[int], None]] = cb\n\n"
+                      "    @property\n    def prop(self) -> Optional[Callable[[int], None]]:\n        ...\n")
     f["kdigit.py"] = "def dg0(_1: int, _1x: int, __: int, a_1: int, _9_: int) -> int:\n    ...\n\n\nclass DHolder:\n    x_1_: int = 1\n    a__2: int = 2\n"
     for n in ("val", "fun", "attr", "sub", "out", "this", "val_"):       # module / package path segments
         f[f"{n}.py"] = "def inmod() -> int:\n    ...\n"
